@@ -525,6 +525,12 @@ fn history(family: &str, seed: u64, idx: usize, thorough: bool, out: &mut impl W
             cfg.meshes = cfg_rng.chance(1, 2);
             cfg.audios = cfg_rng.chance(1, 2);
         }
+        if family == "promo" {
+            // uuid assets live through a hand-over like everything else
+            cfg.materials = true;
+            cfg.meshes = true;
+            cfg.audios = true;
+        }
         if family == "join" {
             cfg.registered.push(Ty::HMat);
             cfg.registered.push(Ty::HMesh);
@@ -536,9 +542,12 @@ fn history(family: &str, seed: u64, idx: usize, thorough: bool, out: &mut impl W
         if family == "asset" {
             cfg.registered.push(Ty::HMat);
             cfg.registered.push(Ty::HMesh);
-            cfg.materials = true;
-            cfg.meshes = true;
-            cfg.audios = true;
+            // the three switches: all on in two histories of three, otherwise any combination (the same on every peer of the
+            // history: the endless exchanges one looks for need both ends of a link to behave alike)
+            let combo = if idx % 3 == 2 { 1 + (seed as usize + idx / 3) % 7 } else { 7 };
+            cfg.materials = combo & 1 != 0;
+            cfg.meshes = combo & 2 != 0;
+            cfg.audios = combo & 4 != 0;
         }
         if family == "skin" {
             cfg.registered.push(Ty::Skinned);
@@ -1306,6 +1315,18 @@ fn history(family: &str, seed: u64, idx: usize, thorough: bool, out: &mut impl W
                 let d = c.drain(80);
                 c.s.trace.push(json!({"ev":"drain","quiescent":d.0,"rounds":d.1}));
             }
+            // uuid assets that are older than the promotion (published by anybody, settled everywhere)
+            let mut old_assets: Vec<(AKind, uuid::Uuid)> = vec![];
+            for _ in 0..c.rng.below(3) {
+                let w = c.any_peer();
+                let kind = *c.rng.pick(&[AKind::Material, AKind::Material, AKind::Mesh, AKind::Image, AKind::Audio]);
+                let id = uuid::Uuid::from_bytes(c.rng.bytes(16).try_into().unwrap());
+                let n = c.rng.below(1000) as u64;
+                c.s.asset_insert(w, kind, Some(id), n);
+                old_assets.push((kind, id));
+                let d = c.drain(80);
+                c.s.trace.push(json!({"ev":"drain","quiescent":d.0,"rounds":d.1}));
+            }
             let promotions = if c.rng.chance(1, 4) { 2 } else { 1 };
             let mut host: u32 = 0;
             for _ in 0..promotions {
@@ -1366,6 +1387,17 @@ fn history(family: &str, seed: u64, idx: usize, thorough: bool, out: &mut impl W
                     }
                     let d = c.drain(80);
                     c.s.trace.push(json!({"ev":"drain","quiescent":d.0,"rounds":d.1}));
+                }
+                // assets that are older than the hand-over are edited afterwards — by the former host in particular
+                for (kind, id) in old_assets.clone() {
+                    if c.rng.chance(2, 3) {
+                        let former = c.s.trace.iter().rev().find(|v| v["ev"] == "handover").and_then(|v| v["old"].as_u64()).unwrap_or(0) as u32;
+                        let w = if c.rng.chance(2, 3) { former } else { c.any_peer() };
+                        c.s.trace.push(json!({"ev":"overwrite","peer":w,"after_handover":true}));
+                        c.s.asset_insert(w, kind, Some(id), 2000 + c.rng.below(1000) as u64);
+                        let d = c.drain(80);
+                        c.s.trace.push(json!({"ev":"drain","quiescent":d.0,"rounds":d.1}));
+                    }
                 }
                 let n1 = c.rng.range(1, 3);
                 epochs(&mut c, n1);
